@@ -100,6 +100,8 @@ Fixpoint prefix_of (p s : string) : bool :=
   | _, _ => false
   end.
 (* Python's `p in s` *)
+(* a subscription key covers a change hash when it IS that hash or a dotted prefix of it (fixed: C07-d; it used to be a substring test) *)
+Definition path_covers (k h : string) : bool := String.eqb k h || prefix_of (k ++ ".") h.
 Fixpoint substring_of (p s : string) : bool :=
   prefix_of p s || match s with EmptyString => false | String _ s' => substring_of p s' end.
 Fixpoint join_dot (l : list string) : string :=
@@ -123,7 +125,7 @@ Definition prop_calls (e : entity) (name : string) (v : value) : list call :=
 (* Entity.set_client_nested_property: every table entry whose key is a substring of "<type>_<a.b.c>" *)
 Definition nested_calls (e : entity) (path : list string) (obj : value) : list call :=
   let h := key_of (en_type e) (join_dot path) in
-  flat_map (fun '(k, n) => if substring_of k h then repeat_call n (CNested k (en_id e) (join_dot path) obj) else []) (s_nsubs St).
+  flat_map (fun '(k, n) => if path_covers k h then repeat_call n (CNested k (en_id e) (join_dot path) obj) else []) (s_nsubs St).
 
 (* sequentially decode a list of properties into an entity; returns the entity reached and an optional error *)
 Fixpoint fill (setter : entity -> string -> value -> entity) (ps : list prop) (e : entity) (bs : bytes)
@@ -233,8 +235,10 @@ Definition leaf_op (is_slice : bool) (leaf : value) (r : breader) : result (valu
       '(i2, r2) <- (if is_slice then br_get w r1 else Ok (0, r1)) ;;
       let rest := br_rest r2 in
       match rest with
-      | [] => if is_slice then Ok (VList et (slice_assign (N.to_nat i1) (N.to_nat i2) [] l), EmptyString, false)
-              else if Nat.ltb (N.to_nat i1) (length l) then Ok (VList et (replace_nth (N.to_nat i1) VNone l), EmptyString, false) else Err EIndex
+      | [] => (* empty element data: delete the slice / clear the element - announced like every other nested change (fixed: C07-c) *)
+              if is_slice then Ok (VList et (slice_assign (N.to_nat i1) (N.to_nat i2) [] l),
+                                   (dec_of_nat (N.to_nat i1) ++ ":" ++ dec_of_nat (N.to_nat i2))%string, true)
+              else if Nat.ltb (N.to_nat i1) (length l) then Ok (VList et (replace_nth (N.to_nat i1) VNone l), dec_of_nat (N.to_nat i1), true) else Err EIndex
       | _ =>
           new <- decode_all (S (length rest)) et rest ;;
           if is_slice then Ok (VList et (slice_assign (N.to_nat i1) (N.to_nat i2) new l),
